@@ -125,6 +125,8 @@ impl ParsingSource for LspParsingSource {
 
 struct ShutdownManager {
     handlers: HashMap<usize, Sender<()>>,
+    // Once the handlers have been invoked, handlers that are added later are notified right away
+    invoked: bool,
 }
 
 static HANDLER_ID: AtomicUsize = AtomicUsize::new(0);
@@ -155,6 +157,7 @@ impl ShutdownManager {
     fn new() -> Self {
         Self {
             handlers: HashMap::new(),
+            invoked: false,
         }
     }
 }
@@ -189,11 +192,14 @@ impl LspContext {
     pub fn add_shutdown_handler(&mut self) -> ShutdownReceiverHandle {
         let (s, r) = crossbeam_channel::bounded(1);
         let handler_id = HANDLER_ID.fetch_add(1, Ordering::Relaxed);
-        self.shutdown_manager
-            .lock()
-            .unwrap()
-            .handlers
-            .insert(handler_id, s);
+        {
+            let mut mgr = self.shutdown_manager.lock().unwrap();
+            if mgr.invoked {
+                // We are already shutting down
+                let _ = s.send(());
+            }
+            mgr.handlers.insert(handler_id, s);
+        }
         ShutdownReceiverHandle {
             manager: self.shutdown_manager.clone(),
             receiver: r,
@@ -205,6 +211,7 @@ impl LspContext {
         // Grab the handlers and unlock the shutdown manager
         let handlers = {
             let mut mgr = self.shutdown_manager.lock().unwrap();
+            mgr.invoked = true;
             std::mem::take(&mut mgr.handlers)
         };
         for sender in handlers.values() {
@@ -314,9 +321,13 @@ impl LspContext {
         Ok(())
     }
 
-    fn join(self) -> MosResult<()> {
-        if let Some(io) = self.connection.unwrap().1 {
-            io.join()?;
+    fn join(&mut self) -> MosResult<()> {
+        if let Some((connection, io_threads)) = self.connection.take() {
+            // The writer thread ends when the last sender is gone
+            drop(connection);
+            if let Some(io) = io_threads {
+                io.join()?;
+            }
         }
         Ok(())
     }
@@ -425,12 +436,9 @@ impl LspServer {
             "life",
             &format!("\"what\":\"main_loop_left\",\"n\":{}", Arc::strong_count(&self.context)),
         );
-        Arc::try_unwrap(self.context)
-            .ok()
-            .unwrap()
-            .into_inner()
-            .unwrap()
-            .join()?;
+        // The context may still be shared with other threads (the debug adapter server), so it cannot be
+        // unwrapped here. Only the connection needs to be taken out of it to join the IO threads.
+        self.context.lock().unwrap().join()?;
         #[cfg(datatrash_mos_verif)]
         crate::verif_dbg::event("life", "\"what\":\"io_joined\",\"n\":0");
 
